@@ -11,7 +11,7 @@ use serde_json::json;
 use std::collections::HashSet;
 use std::path::Path;
 
-pub const HEADER: &str = "From Coq Require Import List NArith String.\nFrom V Require Import Base.Util Base.Result Model.Registry Model.Settings Model.Subst Model.Builders Model.Program Corr.RunTG Corr.CheckTG Corr.RunC05.\nImport ListNotations. Open Scope string_scope.";
+pub const HEADER: &str = "From Coq Require Import List NArith String.\nFrom V Require Import Base.Util Base.Result Model.Registry Model.Settings Model.Subst Model.Builders Model.Program Corr.RunTG Corr.CheckTG Corr.RunC05 Corr.RunC05Emit.\nImport ListNotations. Open Scope string_scope.";
 
 fn cprim(p: &str) -> &'static str {
     match p {
@@ -110,6 +110,10 @@ pub fn generate(tier: &str, seed: u64, out: &Path, nshards: usize, replay: Optio
         ("hyp_registry_of", "hyp_registry_of"),
         ("hyp_prelude_nodocs", "hyp_prelude_nodocs"),
         ("hyp_identity_duplicates", "hyp_identity_duplicates"),
+        // all hypotheses of C05_checker_accepts_model as one boolean (Corr/RunC05Emit.v): where it holds,
+        // prop_source_roundtrip follows from corr_gen (C05_checker_verdict_from_correspondence)
+        ("hyp_emission_theorem", "hyp_emission_theorem"),
+        ("hyp_emission_theorem_nontrivial", "hyp_emission_theorem_nontrivial"),
     ];
     let mut shards = Shards::new(out, nshards, HEADER, "c05_case", &evals);
     let mut meta = Meta::new("C05");
